@@ -31,19 +31,28 @@ theorem command_shape :
       "if cmd == nil"] ∧
     peerClose = ["assign:lp.state = stateDisconnected", "call:Close"] := ⟨rfl, rfl, rfl⟩
 
-/-- `connectCallback`: IDENTIFY round trip, then the REGISTER list is built from *all* of `n.topicMap` and each
-`topic.channelMap` under the read locks (no `Exiting` test), then sent one by one (`callbackCmds`). -/
+/-- `connectCallback` (tree with fixes/F14_connect_callback_skips_exiting.patch): IDENTIFY round trip, then under the
+read locks every topic's `Exiting()` is tested before its channel map is read and every channel's `Exiting()` before its
+REGISTER is built; `REGISTER topic` alone is sent only when no channel was registered (`callbackCmds objs dead`);
+then the commands are sent one by one. Without the patch the `Exiting` calls are absent and this fails. -/
 theorem connectCallback_shape :
     connectCallback = ["call:Identify", "call:Close", "call:Command", "call:Close", "call:Unmarshal", "call:Close",
-      "call:RLock", "call:RLock", "call:Register", "call:Register", "call:RUnlock", "call:RUnlock", "call:Command"] :=
-  rfl
+      "call:RLock", "call:Exiting", "call:RLock", "call:Exiting", "call:Register", "call:Register", "call:RUnlock",
+      "call:RUnlock", "call:Command"] ∧
+    connectCallbackNesting = [("Register", ["func", "for range n.topicMap", "for range topic.channelMap"]),
+      ("Register", ["func", "for range n.topicMap", "if !registered"])] := ⟨rfl, rfl⟩
 
-/-- `lookupLoop`: new peers get `Command(nil)`; the ticker branch PINGs every peer; the notify branch chooses
-UNREGISTER / REGISTER from the object's *current* `Exiting()` and sends it to every peer; removed peers are closed. -/
+/-- `lookupLoop` (tree with fixes/F15_lookup_notify_current_state.patch): new peers get `Command(nil)`; the ticker
+branch PINGs every peer; the notify branch chooses REGISTER / UNREGISTER from `lookupHasChannel` / `lookupHasTopic`,
+i.e. from the CURRENT state of the notified *name* (`nameLive`), not from the notified object's flag, and sends it to
+every peer; removed peers are closed. Without the patch (`Exiting()` of the object) this fails. -/
 theorem lookupLoop_shape :
-    lookupLoop = ["call:Reset", "call:newLookupPeer", "call:Command", "call:Ping", "call:Command", "call:Exiting",
-      "call:UnRegister", "call:Register", "call:Exiting", "call:UnRegister", "call:Register", "call:Command",
-      "call:Close"] := rfl
+    lookupLoop = ["call:Reset", "call:newLookupPeer", "call:Command", "call:Ping", "call:Command",
+      "call:lookupHasChannel", "call:Register", "call:UnRegister", "call:lookupHasTopic", "call:Register",
+      "call:UnRegister", "call:Command", "call:Close"] ∧
+    lookupHasTopic = ["assign t, ok := n.topicMap[topicName]", "return return ok && !t.Exiting()"] ∧
+    lookupHasChannel = ["assign t, ok := n.topicMap[topicName]", "if !ok || t.Exiting()", "return return false",
+      "assign c, ok := t.channelMap[channelName]", "return return ok && !c.Exiting()"] := ⟨rfl, rfl, rfl⟩
 
 /-- `GetTopic` on a new topic: lookupd channel query and `GetChannel` for each non-`#ephemeral` name happen
 *before* `t.Start()`; skipped while loading metadata (`LookupSync.precreate`). -/
